@@ -210,6 +210,10 @@ class MaildropRelay(PipeRelay):
 
     def raise_error(self, status, stdout, stderr):
         error_msg = 'Delivery failed'
+        if isinstance(stdout, bytes):
+            stdout = stdout.decode('utf-8', 'replace')
+        if isinstance(stderr, bytes):
+            stderr = stderr.decode('utf-8', 'replace')
         if stdout.startswith('maildrop: '):
             error_msg = stdout[10:].rstrip()
         elif stderr.startswith('maildrop: '):
@@ -249,6 +253,8 @@ class DovecotLdaRelay(PipeRelay):
 
     def raise_error(self, status, stdout, stderr):
         error_msg = stdout.rstrip() or stderr.rstrip() or 'LDA delivery failed'
+        if isinstance(error_msg, bytes):
+            error_msg = error_msg.decode('utf-8', 'replace')
         if status == self.EX_TEMPFAIL:
             reply = Reply('450', error_msg)
             raise TransientRelayError(error_msg, reply)
